@@ -161,11 +161,16 @@ def arrays(obj, skip=()):
     return [(p, v) for p, k, v in walk(obj, skip=skip) if k == "array"]
 
 
-def shared_buffers(a, b, allowed=()):
+def shared_buffers(a, b, allowed=(), only=None):
     """Pairs of reachable arrays of a and b that share memory, except those that
-    also share memory with an array reachable from any object in `allowed`."""
+    also share memory with an array reachable from any object in `allowed`.  `only`
+    restricts both sides to a set of paths (e.g. the arrays that existed when the
+    object was constructed, which excludes memo buffers created by later calls)."""
     aa = arrays(a)
     bb = arrays(b)
+    if only is not None:
+        aa = [(p, v) for p, v in aa if p in only]
+        bb = [(p, v) for p, v in bb if p in only]
     allow = []
     for o in allowed:
         allow.extend(v for _, v in arrays(o))
@@ -183,7 +188,7 @@ def shared_buffers(a, b, allowed=()):
     return out
 
 
-def scribble(obj, allowed=(), which=None):
+def scribble(obj, allowed=(), which=None, only=None):
     """Write a sentinel through every reachable writable buffer (optionally only the
     `which`-th one).  Returns the paths written."""
     allow = []
@@ -193,6 +198,8 @@ def scribble(obj, allowed=(), which=None):
     n = 0
     for p, v in arrays(obj):
         if v.size == 0:
+            continue
+        if only is not None and p not in only:
             continue
         if any(np.may_share_memory(v, w) and np.shares_memory(v, w) for w in allow):
             continue
